@@ -262,9 +262,15 @@ theorem eofBlind_ok : EofBlind (fun out => out = okOut) := by
   intro st st' e e' _
   simp [DecProg.fail, okOut]
 
-theorem eofBlind_err (e0 : DecApi.Err) : EofBlind (fun out => out.status.map errC = some e0) := by
-  intro st st' e e' _
-  simp [DecProg.fail, errC]
+theorem eofBlind_err (e0 : DecApi.Err) (P : DecProg.St → Prop) :
+    EofBlind (fun out => out.status.map errC = some e0 ∧ ∃ st'', P st'' ∧ out.evs = st''.evs.reverse) := by
+  intro st st' e e' h
+  simp [DecProg.fail, errC, h]
+
+theorem follows_evs {o : Opts} {s : St} {st st' : DecProg.St} {done : List (Out × List Event)} {pend : List Event}
+    (h : Follows o s st done pend) (he : st'.evs = st.evs) : Follows o s st' done pend := by
+  obtain ⟨t, h1, h2⟩ := h
+  exact ⟨t, by rw [he]; exact h1, h2⟩
 
 /-- **`decodeMessages` of (C) against `DecHist.messages`, for every client**: where (C)'s loop ends without error, (D')'s hands
 its success continuation a state that corresponds (`CD`, `Tables`, `Follows`) with exactly (C)'s remaining stream unread; where
@@ -276,7 +282,7 @@ theorem messagesH_link {α : Type} (fl : DecProg.St → DecProg.Err → Prog α)
     match decodeMessages fuelC s with
     | (sf, evs, .ok ()) => ∃ f st', CD chk sf st' ∧ Tables sf st' ∧ Follows o sf st' done (pend ++ evs) ∧
         runExact (DecHist.messages fl chk ds fuelD fid st k) s.rest = runExact (k f st') sf.rest
-    | (sf, evs, .err e) => ∃ st' e' r, errC e' = e ∧
+    | (sf, evs, .err e) => ∃ st' e' r, errC e' = e ∧ Follows o sf st' done (pend ++ evs) ∧
         runExact (DecHist.messages fl chk ds fuelD fid st k) s.rest = runExact (fl st' e') r
     | (_, _, .panic) => False
     | (_, _, .hang) => False := by
@@ -317,9 +323,11 @@ theorem messagesH_link {α : Type} (fl : DecProg.St → DecProg.Err → Prog α)
       simp [flP, runExact, DecProg.fail, okOut] at hml'
   | err e =>
     dsimp only
-    have hml := messages_link (fun out => out.status.map errC = some e) (eofBlind_err e) o chk ds
+    have hml := messages_link (fun out => out.status.map errC = some e ∧
+        ∃ st'', Follows o sf st'' done (pend ++ evs) ∧ out.evs = st''.evs.reverse)
+      (eofBlind_err e _) o chk ds
       (fun _ => .ret badOut) True done fuelC fuelD s st pend hcd hT hF hi hbt hfd hds hfD hfC
-      (by rw [hdm]; dsimp only; intro st' _ he; simp [DecProg.fail, he])
+      (by rw [hdm]; dsimp only; intro st' hf he; exact (eq_true ⟨by simp [DecProg.fail, he], st', hf, rfl⟩).symm)
     have hml' := of_eq_true hml
     rw [messages_inst chk ds fuelD fid st, messages_cap] at hml'
     rcases hc : runExactR (DecHist.messages capFl chk ds fuelD fid st capK) s.rest with ⟨c, rest⟩
@@ -332,7 +340,10 @@ theorem messagesH_link {α : Type} (fl : DecProg.St → DecProg.Err → Prog α)
     | inr p =>
       obtain ⟨st', e'⟩ := p
       dsimp only at hml' hcap2
-      refine ⟨st', e', rest, ?_, hcap2⟩
-      simpa [flP, runExact, DecProg.fail] using hml'
+      obtain ⟨h1, st'', h2, h3⟩ := hml'
+      refine ⟨st', e', rest, ?_, follows_evs h2 ?_, hcap2⟩
+      · simpa [flP, runExact, DecProg.fail] using h1
+      · have : st'.evs.reverse = st''.evs.reverse := h3
+        simpa using this
 
 end Fit.LinkH
